@@ -32,7 +32,7 @@ func init() {
 
 func c17(c *ctx) {
 	o := c.o
-	cases := [][]string{{"deadlock"}, {"orphan"}, {"hookvar"}}
+	cases := [][]string{{"deadlock"}, {"orphan"}, {"hookvar"}, {"doubleterm"}}
 	nStress := 1
 	if c.thorough() {
 		nStress = 4
@@ -77,6 +77,8 @@ func c17sub(c *ctx) {
 		c17Orphan(c, false)
 	case "hookvar":
 		c17Orphan(c, true)
+	case "doubleterm":
+		c17DoubleTerminate(c)
 	case "stress":
 		c17Stress(c)
 	default:
@@ -217,6 +219,39 @@ func c17Deadlock(c *ctx) {
 	os.Exit(0) // never wait for the stuck goroutines
 }
 
+// bookkeepingWaiters: goroutines parked in a sync mutex-acquire frame called (directly or not) from a bookkeeping operation
+func bookkeepingWaiters(d string) []string {
+	var out []string
+	for _, g := range strings.Split(d, "\n\n") {
+		iLock := -1
+		for _, lf := range []string{"sync.(*Mutex).Lock", "sync.(*RWMutex).RLock", "sync.(*RWMutex).Lock"} {
+			if i := strings.Index(g, lf+"("); i >= 0 && (iLock < 0 || i < iLock) {
+				iLock = i
+			}
+		}
+		if iLock < 0 {
+			continue
+		}
+		iOp := -1
+		for _, f := range []string{"server.(*userPanel).", "server.(*ActiveUser)."} {
+			if i := strings.Index(g, f); i >= 0 && (iOp < 0 || i < iOp) {
+				iOp = i
+			}
+		}
+		if iOp < 0 || iLock > iOp {
+			continue
+		}
+		var fs []string
+		for _, ln := range strings.Split(g, "\n") {
+			if strings.HasPrefix(ln, "sync.(") || strings.Contains(ln, "server.(*userPanel)") || strings.Contains(ln, "server.(*ActiveUser)") {
+				fs = append(fs, strings.TrimSpace(ln[:strings.LastIndex(ln, "(")]))
+			}
+		}
+		out = append(out, strings.Join(fs, " <- "))
+	}
+	return out
+}
+
 func framesOf(d string) []string {
 	var out []string
 	for _, g := range strings.Split(d, "\n\n") {
@@ -336,6 +371,76 @@ func c17Orphan(c *ctx, hookVariant bool) {
 	rig.close()
 }
 
+// two terminations of one record overlap (its last session closes while a TERMINATE verdict is being carried out), the user
+// reconnects in between: the late delete must not remove the NEW record's entry (Props/C17 c17_unguarded_delete_witness)
+func c17DoubleTerminate(c *ctx) {
+	o := c.o
+	rig := newPanelRig(1000)
+	now := int64(1000)
+	o.T("sess.new", "ok")
+	rig.putUser(7, 2, 5000, 5000, 100000)
+	o.T("sess.put uid=7 cap=2 upc=5000 downc=5000 exp=100000", "ok")
+	getUser := func() *server.ActiveUser {
+		u, err := rig.panel.GetUser(uidBytes(7), false)
+		if err != nil {
+			o.T(fmt.Sprintf("sess.getUser uid=7 bypass=0 now=%d", now), "err="+errName(err))
+			return nil
+		}
+		id, fresh := rig.idOf(u)
+		f := 0
+		if fresh {
+			f = 1
+		}
+		o.T(fmt.Sprintf("sess.getUser uid=7 bypass=0 now=%d", now), fmt.Sprintf("rec=%d fresh=%d", id, f))
+		return u
+	}
+	getSession := func(u *server.ActiveUser, sid uint32) {
+		k := c.freshKey()
+		_, ex, sk, err := server.VerifGetSession(u, sid, k)
+		id, _ := rig.idOf(u)
+		o.T(fmt.Sprintf("sess.getSession rec=%d sid=%d key=%d now=%d", id, sid, keyNum(k), now), sessOut(ex, sk, err))
+	}
+	u0 := getUser()
+	getSession(u0, 1)
+	parked, release := make(chan struct{}), make(chan struct{})
+	var armed int32 = 1
+	common.SetVerifHook(func(label string) {
+		if label == "ActiveUser.CloseSession:beforeTerminate" && atomic.CompareAndSwapInt32(&armed, 1, 0) {
+			close(parked)
+			<-release
+		}
+	})
+	done := make(chan struct{})
+	go func() { server.VerifCloseSession(u0, 1, ""); close(done) }()
+	<-parked
+	o.T("sess.closeLocked rec=0 sid=1", fmt.Sprintf("remaining=%d", server.VerifNumSession(u0)))
+	rig.panel.Terminate(u0, "verdict") // what commitUpdate does for a TERMINATE response
+	o.T("sess.terminate rec=0", rig.stateLine())
+	u1 := getUser() // the user reconnects: a new record
+	if u1 != nil {
+		getSession(u1, 1)
+	}
+	close(release) // the parked closure now runs its own TerminateActiveUser(record 0)
+	<-done
+	o.T("sess.terminate rec=0", rig.stateLine())
+	orph := rig.orphans()
+	single := "1"
+	if len(orph) > 0 {
+		single = "0"
+	}
+	o.T("sess.single", single)
+	caseC(o, "double-terminate", true)
+	if len(orph) > 0 {
+		o.V("C17 orphan-session late-delete-removes-new-record", map[string]any{
+			"schedule": []string{"session 1 of record 0 closes; CloseSession parked before TerminateActiveUser", "TerminateActiveUser(record 0) by a TERMINATE verdict completes",
+				"user reconnects: record 1, session 1", "parked closure resumes: TerminateActiveUser(record 0) deletes activeUsers[uid] = record 1"},
+			"live_sessions_outside_active_record": orph, "state": rig.stateLine()})
+	}
+	o.sample("double-terminate: " + rig.stateLine())
+	common.SetVerifHook(nil)
+	rig.close()
+}
+
 // ---- seeded random overlap of all bookkeeping operations ------------------------------------------------------
 
 func c17Stress(c *ctx) {
@@ -352,6 +457,9 @@ func c17Stress(c *ctx) {
 	for uid := 1; uid <= nUsers; uid++ {
 		rig.putUser(uid, 3, 1<<50, 1<<50, 1<<40)
 	}
+	// user 2 runs out of upload credit somewhere in the middle: the commit's TERMINATE path is exercised too;
+	// it is topped up again now and then by the traffic worker
+	rig.putUser(2, 3, 400, 1<<50, 1<<40)
 	iters := 250
 	if c.thorough() {
 		iters = 1500
@@ -417,6 +525,9 @@ func c17Stress(c *ctx) {
 		for _, u := range rig.panel.ActiveList() {
 			server.VerifValve(u).AddRx(int64(r.intn(5)))
 		}
+		if r.intn(40) == 0 {
+			rig.putUser(2, 3, 400, 1<<50, 1<<40)
+		}
 	}
 	fs := []func(*rng){admit, admit, admit, closer, closer, upload, upload, traffic}
 	for _, f := range fs {
@@ -439,18 +550,17 @@ func c17Stress(c *ctx) {
 			if time.Since(lastChange) < 400*time.Millisecond {
 				continue
 			}
-			stuck := func(d string) bool {
-				return anyMutexWait(d, "(*userPanel).updateUsageQueue") && anyMutexWait(d, "(*userPanel).commitUpdate")
-			}
+			stuck := func(d string) bool { return len(bookkeepingWaiters(d)) >= 2 }
 			d1 := dumpAll()
 			if stuck(d1) {
 				time.Sleep(1500 * time.Millisecond)
 				d2 := dumpAll()
 				q, a := rig.panel.Probe()
-				if stuck(d2) && atomic.LoadInt64(&progress) == last && q && a {
+				if stuck(d2) && atomic.LoadInt64(&progress) == last && (q || a) {
 					caseC(o, fmt.Sprintf("stress-%d", sub), true)
-					o.V("C17 deadlock updateUsageQueue-vs-commitUpdate (random overlap)", map[string]any{"stress_case": sub, "operations_completed": last,
-						"dump1_frames": framesOf(d1), "dump2_frames": framesOf(d2), "both_panel_locks_held": true})
+					o.V("C17 deadlock among bookkeeping operations (random overlap)", map[string]any{"stress_case": sub, "operations_completed": last,
+						"waiting_in_dump1": bookkeepingWaiters(d1), "waiting_in_dump2": bookkeepingWaiters(d2),
+						"usageUpdateQueueM_held": q, "activeUsersM_held": a})
 					o.stat("stress_ops", int(last))
 					o.close()
 					os.Exit(0)
